@@ -371,7 +371,7 @@ func GenWorld(r *Run, o GenOpts) *World {
 		// offsets of a damaged file, so these runs cost O(S^2))
 		hs := []int{16384, 16388, 32768, 32772, 40000, 65536, 65540, 100000}
 		if !r.Thorough() {
-			hs = hs[:5]
+			hs = hs[:4]
 		}
 		w.S = hs[t.Draw(len(hs), "huge-slice-size")]
 		r.Probe("slice>=16KiB")
